@@ -364,6 +364,7 @@ func init() {
 		"runtime.Caller":                   func(fr *frame, a []value) value { return tuple{uintptr(0), "", 0, false} },
 		"runtime.Callers":                  func(fr *frame, a []value) value { return 0 },
 		"os.Exit":                          func(fr *frame, a []value) value { panic(targetPanic{iface{types.Typ[types.String], "os.Exit"}}) },
+		"os.Getpagesize":                   func(fr *frame, a []value) value { return 4096 },
 		"os.Getenv":                        func(fr *frame, a []value) value { return "" },
 		"internal/godebug.(*Setting).Value": func(fr *frame, a []value) value { return "" },
 		"internal/race.Enable":             extNop,
